@@ -661,6 +661,139 @@ def jcompare(a, b):
     return (len(a.v) > len(b.v)) - (len(a.v) < len(b.v))
 
 
+GLOBALS = {}
+
+
+def _install_globals():
+    g = GLOBALS
+
+    def reg(name, fn):
+        g[Sym(name)] = Builtin(name, fn)
+
+    def vmerr(node):
+        raise JErr(OPAQUE, node)
+
+    def b_t(m, a, node):
+        if len(a) != 1:
+            vmerr(node)
+        m.trace.append(canon(a[0]))
+        return a[0]
+
+    def b_obs(m, a, node):
+        for x in a:
+            m.obs.append(canon(x))
+        return OBS_SENTINEL
+
+    def b_id(m, a, node):
+        if len(a) != 1:
+            vmerr(node)
+        return a[0]
+
+    def b_error(m, a, node):
+        if len(a) != 1:
+            vmerr(node)
+        raise JErr(a[0], node)
+
+    def b_tuple(m, a, node):
+        return Tup(a, False)
+
+    def b_array(m, a, node):
+        return Arr(a)
+
+    def b_length(m, a, node):
+        if len(a) != 1:
+            vmerr(node)
+        x = a[0]
+        t = type(x)
+        if t is Tup or t is Arr:
+            return len(x.v)
+        if t is Struct or t is Tab:
+            return len(x.d)
+        if t is str:
+            return len(x.encode("latin-1"))
+        if t is Kw or t is Sym:
+            return len(x.n)
+        vmerr(node)
+
+    def b_get(m, a, node):
+        if len(a) not in (2, 3):
+            vmerr(node)
+        r = m.get(a[0], a[1], node)
+        if r is None and len(a) == 3:
+            return a[2]
+        return r
+
+    def b_in(m, a, node):
+        if len(a) not in (2, 3):
+            vmerr(node)
+        r = m.jin(a[0], a[1], node)
+        if r is None and len(a) == 3:
+            return a[2]
+        return r
+
+    def b_put(m, a, node):
+        if len(a) != 3:
+            vmerr(node)
+        m.put(a[0], a[1], a[2], node)
+        return a[0]
+
+    def b_push(m, a, node):
+        if len(a) < 1 or type(a[0]) is not Arr:
+            vmerr(node)
+        a[0].v.extend(a[1:])
+        return a[0]
+
+    def b_not(m, a, node):
+        if len(a) != 1:
+            vmerr(node)
+        return not truthy(a[0])
+
+    def b_inc(m, a, node):
+        if len(a) != 1 or not isnum(a[0]):
+            vmerr(node)      # error is raised inside `inc` (a Janet function); see attribution note
+        return a[0] + 1
+
+    def b_dec(m, a, node):
+        if len(a) != 1 or not isnum(a[0]):
+            vmerr(node)
+        return a[0] - 1
+
+    reg("t", b_t)
+    reg("obs", b_obs)
+    reg("id", b_id)
+    reg("error", b_error)
+    reg("tuple", b_tuple)
+    reg("array", b_array)
+    reg("length", b_length)
+    reg("get", b_get)
+    reg("in", b_in)
+    reg("put", b_put)
+    reg("array/push", b_push)
+    reg("not", b_not)
+    for op in ("+", "-", "*"):
+        reg(op, (lambda o: lambda m, a, node: m.arith(o, a, node))(op))
+    for op in ("<", ">", "<=", ">=", "=", "not="):
+        reg(op, (lambda o: lambda m, a, node: m.compare(o, a))(op))
+
+    def b_apply(m, a, node):
+        if len(a) < 1:
+            vmerr(node)
+        f = a[0]
+        args = list(a[1:-1])
+        if len(a) > 1:
+            last = a[-1]
+            if type(last) not in (Tup, Arr):
+                vmerr(node)
+            args.extend(last.v)
+        return m.apply(f, args, node)
+
+    reg("apply", b_apply)
+
+
+
+_install_globals()
+
+
 class Machine(object):
     MAXSTEPS = 40000
 
@@ -668,14 +801,13 @@ class Machine(object):
         self.trace = []
         self.obs = []
         self.steps = 0
-        self.globals = {}
+        self.globals = GLOBALS
         self.nfid = 0
         self.nslots = {}
         self.far_capture = False    # a closure referenced a local of an enclosing function whose slot is > 255
         self.keys_odd = False       # a &keys/&named function received an odd number of key/value arguments
         self.far_error = False      # inlined (error v) executed in a function with more than 240 locals
         self.far_rest = False       # [a & rest] destructuring executed in a function with more than 240 locals
-        self._install()
 
     # ---- scopes: persistent association list  (sym, cell, next)
     class Scope(object):
@@ -721,132 +853,6 @@ class Machine(object):
                     return c
             n = n[2]
         return None
-
-    # ---- builtins
-    def _install(self):
-        g = self.globals
-
-        def reg(name, fn):
-            g[Sym(name)] = Builtin(name, fn)
-
-        def vmerr(node):
-            raise JErr(OPAQUE, node)
-
-        def b_t(a, node):
-            if len(a) != 1:
-                vmerr(node)
-            self.trace.append(canon(a[0]))
-            return a[0]
-
-        def b_obs(a, node):
-            for x in a:
-                self.obs.append(canon(x))
-            return OBS_SENTINEL
-
-        def b_id(a, node):
-            if len(a) != 1:
-                vmerr(node)
-            return a[0]
-
-        def b_error(a, node):
-            if len(a) != 1:
-                vmerr(node)
-            raise JErr(a[0], node)
-
-        def b_tuple(a, node):
-            return Tup(a, False)
-
-        def b_array(a, node):
-            return Arr(a)
-
-        def b_length(a, node):
-            if len(a) != 1:
-                vmerr(node)
-            x = a[0]
-            t = type(x)
-            if t is Tup or t is Arr:
-                return len(x.v)
-            if t is Struct or t is Tab:
-                return len(x.d)
-            if t is str:
-                return len(x.encode("latin-1"))
-            if t is Kw or t is Sym:
-                return len(x.n)
-            vmerr(node)
-
-        def b_get(a, node):
-            if len(a) not in (2, 3):
-                vmerr(node)
-            r = self.get(a[0], a[1], node)
-            if r is None and len(a) == 3:
-                return a[2]
-            return r
-
-        def b_in(a, node):
-            if len(a) not in (2, 3):
-                vmerr(node)
-            r = self.jin(a[0], a[1], node)
-            if r is None and len(a) == 3:
-                return a[2]
-            return r
-
-        def b_put(a, node):
-            if len(a) != 3:
-                vmerr(node)
-            self.put(a[0], a[1], a[2], node)
-            return a[0]
-
-        def b_push(a, node):
-            if len(a) < 1 or type(a[0]) is not Arr:
-                vmerr(node)
-            a[0].v.extend(a[1:])
-            return a[0]
-
-        def b_not(a, node):
-            if len(a) != 1:
-                vmerr(node)
-            return not truthy(a[0])
-
-        def b_inc(a, node):
-            if len(a) != 1 or not isnum(a[0]):
-                vmerr(node)      # error is raised inside `inc` (a Janet function); see attribution note
-            return a[0] + 1
-
-        def b_dec(a, node):
-            if len(a) != 1 or not isnum(a[0]):
-                vmerr(node)
-            return a[0] - 1
-
-        reg("t", b_t)
-        reg("obs", b_obs)
-        reg("id", b_id)
-        reg("error", b_error)
-        reg("tuple", b_tuple)
-        reg("array", b_array)
-        reg("length", b_length)
-        reg("get", b_get)
-        reg("in", b_in)
-        reg("put", b_put)
-        reg("array/push", b_push)
-        reg("not", b_not)
-        for op in ("+", "-", "*"):
-            reg(op, (lambda o: lambda a, node: self.arith(o, a, node))(op))
-        for op in ("<", ">", "<=", ">=", "=", "not="):
-            reg(op, (lambda o: lambda a, node: self.compare(o, a))(op))
-
-        def b_apply(a, node):
-            if len(a) < 1:
-                vmerr(node)
-            f = a[0]
-            args = list(a[1:-1])
-            if len(a) > 1:
-                last = a[-1]
-                if type(last) not in (Tup, Arr):
-                    vmerr(node)
-                args.extend(last.v)
-            return self.apply(f, args, node)
-
-        reg("apply", b_apply)
 
     # ---- data access
     def get(self, ds, k, node):
@@ -1057,7 +1063,7 @@ class Machine(object):
         if t is Closure:
             return self.call_closure(f, args, node)
         if t is Builtin:
-            return f.fn(args, node)
+            return f.fn(self, args, node)
         if t is Kw:
             raise Unsupported("keyword call is a method invocation")
         if t in (Tup, Arr, Struct, Tab):
